@@ -9,6 +9,7 @@ import PysnarkModel.Driver.ProtoHash
 import PysnarkModel.Driver.ProtoZkif
 import PysnarkModel.Driver.ProtoBlock
 import PysnarkModel.Driver.ProtoQaptools
+import PysnarkModel.Driver.ProtoArray2D
 open Pysnark Pysnark.Proto
 
 def handle (line : String) : String :=
@@ -29,6 +30,7 @@ def handle (line : String) : String :=
   | "PG" :: rest => ProtoHash.handleGgh rest
   | "NI" :: rest => ProtoStruct.handleSnark true rest
   | "NO" :: rest => ProtoStruct.handleSnark false rest
+  | "A2" :: rest => ProtoArray2D.handleA2 rest
   | _ => "bad-line"
 
 partial def loop (h : IO.FS.Stream) (out : IO.FS.Stream) : IO Unit := do
